@@ -8,6 +8,8 @@ import (
 	"crypto/ecdsa"
 	"crypto/ed25519"
 	"crypto/elliptic"
+	crand "crypto/rand"
+	"crypto/rsa"
 	"crypto/x509"
 	"crypto/x509/pkix"
 	"encoding/asn1"
@@ -101,3 +103,89 @@ func Cert(key *ecdsa.PrivateKey, o CertOpts) *x509.Certificate {
 
 // Curves used across the drivers.
 var Curves = []elliptic.Curve{elliptic.P256(), elliptic.P384()}
+
+// Transitions lists the instants in [from, to) at which the UTC offset of loc changes (half-hour resolution).
+func Transitions(loc *time.Location, from, to int64) []int64 {
+	var out []int64
+	_, prev := time.Unix(from, 0).In(loc).Zone()
+	for t := from; t < to; t += 1800 {
+		_, off := time.Unix(t, 0).In(loc).Zone()
+		if off != prev {
+			out = append(out, t)
+			prev = off
+		}
+	}
+	return out
+}
+
+var dstCache = map[string][]int64{}
+
+// DSTBase returns an instant shortly (30 minutes to just under 7 days) before a daylight-saving transition of the
+// process's local zone in 2020-2021; America/New_York stands in when the local zone has none. Seven-day windows that
+// start there cross the transition.
+func DSTBase(g *mon.Rand) int64 {
+	name := time.Local.String()
+	tr, ok := dstCache[name]
+	if !ok {
+		tr = Transitions(time.Local, 1577836800, 1640995200)
+		if len(tr) == 0 {
+			if ny, err := time.LoadLocation("America/New_York"); err == nil {
+				tr = Transitions(ny, 1577836800, 1640995200)
+			}
+		}
+		dstCache[name] = tr
+	}
+	if len(tr) == 0 {
+		return 1600000000
+	}
+	return mon.Pick(g, tr) - mon.Pick(g, []int64{1800, 3 * 86400, 6*86400 + 23*3600 + 1800})
+}
+
+// ForeignCert issues a certificate for host whose public key is of a kind the signing side never uses
+// (kind: p224, p521, rsa, ed25519), signed by a P-256 CA made for the purpose. A certificate is external data: a
+// verifier must cope with every key type crypto/x509 can parse.
+func ForeignCert(g *mon.Rand, kind, host string) *x509.Certificate {
+	caKey := ECKey(g, elliptic.P256())
+	ca := Cert(caKey, CertOpts{CN: "foreign-ca", Serial: 77})
+	var pub any
+	switch kind {
+	case "p224":
+		k, err := ecdsa.GenerateKey(elliptic.P224(), g)
+		if err != nil {
+			panic(err)
+		}
+		pub = &k.PublicKey
+	case "p521":
+		k, err := ecdsa.GenerateKey(elliptic.P521(), g)
+		if err != nil {
+			panic(err)
+		}
+		pub = &k.PublicKey
+	case "rsa":
+		k, err := rsa.GenerateKey(crand.Reader, 2048)
+		if err != nil {
+			panic(err)
+		}
+		pub = &k.PublicKey
+	case "ed25519":
+		p, _ := EdKey(g)
+		pub = p
+	default:
+		panic("gen.ForeignCert: unknown kind " + kind)
+	}
+	nb := time.Unix(1500000000, 0).UTC()
+	tmpl := &x509.Certificate{
+		SerialNumber: big.NewInt(4242), Subject: pkix.Name{CommonName: host}, NotBefore: nb, NotAfter: nb.Add(90 * 24 * time.Hour),
+		DNSNames: []string{host}, KeyUsage: x509.KeyUsageDigitalSignature,
+		ExtraExtensions: []pkix.Extension{{Id: oidCanSignHTTPExchanges, Value: asn1.NullBytes}}, BasicConstraintsValid: true,
+	}
+	der, err := x509.CreateCertificate(zeroReader{}, tmpl, ca, pub, caKey)
+	if err != nil {
+		panic("gen.ForeignCert: " + err.Error())
+	}
+	c, err := x509.ParseCertificate(der)
+	if err != nil {
+		panic("gen.ForeignCert: " + err.Error())
+	}
+	return c
+}
